@@ -11,7 +11,7 @@ pub fn prop() -> Prop {
     Prop {
         id: "C20",
         level: "model_checking",
-        rule: "the real jawk binary built from the working tree, spawned with pipes: 16 inputs (clean, noisy, truncated tail, empty; 3000 rows, one 70 KB row, 1500 diagnostics, a long clean stream with a truncated tail - output beyond every stdout buffer) x 4 --on-error policies x 18 configurations (5 valid pipelines, 11 classes of invalid configuration, missing input file, file argument) x stdout in {pipe, pipe whose reader is gone (EPIPE), /dev/full} x row separator with/without newline; all combinations; non-trivial = the run produces output or must fail; distinct by construction",
+        rule: "the real jawk binary built from the working tree, spawned with pipes: 18 inputs (clean, noisy, junk words and broken literals between values, truncated tail, empty; 3000 rows, one 70 KB row, 1500 diagnostics, a long clean stream with a truncated tail - output beyond every stdout buffer) x 4 --on-error policies x 22 configurations (9 valid pipelines incl. options unrelated to error handling such as --only-objects-and-arrays, --unique, cache size, styles, split+group; 11 classes of invalid configuration, missing input file, file argument) x stdout in {pipe, pipe whose reader is gone (EPIPE), /dev/full} x row separator with/without newline; all combinations; non-trivial = the run produces output or must fail; distinct by construction",
         explanation: "every combination is executed as a child process and compared with the in-process run of the same arguments: stdout = exactly the in-process stdout sink, under --on-error=stderr the diagnostics = exactly the in-process stderr sink and none on stdout, exit status 0 iff the in-process Result is Ok and stdout accepted every byte, otherwise non-zero with a non-empty stderr",
         assumptions: a,
         guards: vec!["output-beyond-every-buffer", "exit-nonzero-on-config-error", "exit-nonzero-on-full-stdout", "epipe", "stderr-policy-diagnostics", "unterminated-buffer-flush", "panic-policy-fails", "missing-file"],
@@ -22,7 +22,7 @@ pub fn prop() -> Prop {
     }
 }
 
-const INPUTS: [&str; 12] = [
+const INPUTS: [&str; 14] = [
     "",
     "1\n",
     "{\"a\":1}\n{\"a\":2}\n",
@@ -35,6 +35,8 @@ const INPUTS: [&str; 12] = [
     "{\"a\": ",
     "1 2 3 4 5 6 7 8 9 10\n",
     "\u{e9} 1\n",
+    "{\"a\":1} 12 oops {\"b\":[2]} tru \"s{\" [3] nul",
+    "[1] - [2] 1.2.3 {\"a\":4}\n",
 ];
 
 const POLICIES: [&str; 4] = ["ignore", "stdout", "stderr", "panic"];
@@ -47,6 +49,11 @@ fn configs() -> Vec<(&'static str, Vec<&'static str>, bool)> {
         ("sort-take", vec!["--sort-by=.=DESC", "--take=2"], true),
         ("merge", vec!["--merge"], true),
         ("csv", vec!["--output-style=csv", "--select=.a=A"], true),
+        // options that have nothing to do with error handling: the exit status must not depend on them
+        ("only-objects-and-arrays", vec!["--only-objects-and-arrays"], true),
+        ("only-objects-and-arrays-unique-text", vec!["--only-objects-and-arrays", "--unique", "--output-style=text"], true),
+        ("filter-cache0-pretty", vec!["--filter=(not (null? .))", "--regular-expression-cache-size=0", "--style=pretty", "--utf8-strings"], true),
+        ("split-group", vec!["--split-by=(? (array? .) . (push [] .))", "--group-by=(stringify .)"], true),
         ("bad-expression", vec!["--filter=(len"], false),
         ("unknown-function", vec!["--select=(nosuch 1)"], false),
         ("bad-set", vec!["--set=novalue"], false),
